@@ -39,6 +39,7 @@ const (
 	shGrepCount
 	shExistsTwo
 	shBuiltinCond
+	shCd
 	shNumShapes
 )
 
@@ -49,6 +50,14 @@ var vBuiltinConds = []struct {
 }{
 	{"linux", true}, {"windows", false}, {"gc", true},
 	{"go1.9", true}, {"go1.100", false}, {"go2.1", false},
+}
+
+// arguments of cd and whether they name a directory
+var vCdTargets = []struct {
+	arg   string
+	isDir bool
+}{
+	{".", true}, {"$WORK", true}, {"a.txt", false}, {"nope", false},
 }
 
 type vLine struct {
@@ -137,6 +146,10 @@ func VerifC01Verdict() {
 				pre = "! exists "
 			}
 			sb.WriteString(pre + pair[0] + " " + pair[1])
+		case shCd:
+			// cd onto the work directory itself, a regular file or a missing name
+			l.cond = rt.IntRange(0, 3)
+			sb.WriteString("cd " + vCdTargets[l.cond].arg)
 		case shGrepCount:
 			l.cond = rt.IntRange(1, 2)
 			sb.WriteString("grep -count=" + strconv.Itoa(l.cond) + " foo c.txt")
@@ -277,6 +290,8 @@ func VerifC01Verdict() {
 			} else {
 				lineFails = !present[0] || !present[1] // every named file must exist
 			}
+		case shCd:
+			lineFails = !vCdTargets[l.cond].isDir
 		case shGrepCount:
 			// -count=N demands exactly N matches
 			lineFails = nfoo != l.cond
